@@ -32,6 +32,11 @@ CLAIMED = {
         "Trusted: exact big-rational rounding oracle (vcore), the harness's own decoder of the packed format; formats are limited to the compiled catalogue (core group).",
         "property-based testing (proptest, one runner per format) against an exact-arithmetic reference oracle",
     ),
+    "C10": (
+        "For every valid compiled format x every compiled type x {parse, parse_partial}, in release and in debug-assertion+overflow-check builds: all strings up to length 3 (thorough 4) over the per-format alphabet and generated inputs (valid numbers under insert/delete/duplicate/replace/truncate/splice mutations, arbitrary bytes, inputs padded to KiBs; lossy / no_multi_digit toggled). Every input sits in a guard-page buffer of exactly its length, once flush with the trailing and once with the leading PROT_NONE page, inside a supervised worker process. Monitor: the call returns (catch_unwind, worker survives, 20 s watchdog), count <= len, error index <= len.",
+        "Trusted: the kernel's page protection; attribution of a worker death to the last case recorded in a shared mapping. A read outside the slice that stays in mapped memory away from both guards is not visible (ASan/Miri are not part of this check).",
+        "property-based testing and bounded-exhaustive enumeration under a memory-fault / panic / hang monitor (guard pages + supervised subprocesses)",
+    ),
     "C11": (
         "For every valid compiled format (core, syntax, prebuilt, write, separator groups) x float types (standard and custom punctuation) x integer types: all strings up to length 4 (thorough 5) over the per-format alphabet incl. separator, prefix/suffix and special-string letters, plus generated numbers with prefixes, suffixes and one-byte mutations. Pure relations: complete(s)=Ok(v) iff partial(s)=Ok((v,len)); partial(s)=Ok((v,n)), n>0 implies complete(s[..n])=Ok(v).",
         "Trusted: nothing beyond the harness plumbing (relation between two API calls). Three deviations are recorded as known findings with narrow structural matchers (integer sign-without-digits, specials that are numeric in large radices, empty number before a special when digits are optional).",
